@@ -240,6 +240,14 @@ def resolver_rules(chk, fx, ty, rn, paths):
             # Ok(expr): expr = the MpFilter payload of an attribute of the FilterSet payload of the response's own content
             good = good and "→MpFilter.0" in v and "→FilterSet.0" in v and "ResponseItem::into_content(«RESPONSE»)" in v
         chk.instance("C11/R3", "a filter-set resolves to its own mp-filter attribute, unchanged", rn, None, holds=good, key="C11/R3 Resolver<FilterSet> attribute")
+    # R1 (members): a member that was delivered (Ok item) always gets its route queries — no path of the per-member closure over a
+    # successful item ends without them (a "seen already" filter, a budget, a condition on evaluator state)
+    mq = [(p, e[1]) for p in paths for e in p.trace if e[0] == "member-queries"]
+    if mq:
+        skipped = [(p, r) for (p, r) in mq if not any(is_query(x) for x in A.walk_value(r)) and not A.mentions(r, lambda x: x == ("sym", "SUNK_OR_ERR"))]
+        chk.instance("C11/R1", "Resolver<%s>: every delivered member gets its route queries (%d member paths)" % (ty, len(mq)), rn, loc_of(t.get("sp")),
+                     holds=not skipped, key="C11/R1 Resolver<%s> member-skipped" % ty,
+                     detail=None if not skipped else "on a path the per-member closure yields %s: that member's prefixes are missing from the set" % A.vstr(skipped[0][1])[:80])
     # R1: family completeness — wherever routes are requested, for both families of the same AS
     for group, label in ((direct, "for the resolved name"), (member, "per member")):
         v4 = sorted(A.vstr(dict(q[3]).get("0")) for q in group if q[2] == "Ipv4Routes")
@@ -364,3 +372,7 @@ def r6_agent_delivery(chk, fx):
     from .c15 import _Rename
     c17.r1_restore(_Rename(chk, "C17/R1", "C11/R6:conn"), fx, fx.body(c17.WC))
     c01.r1_compare(_Rename(chk, "C01/R1", "C11/R6:compare"), fx)
+    # which response errors are dropped from a result instead of failing it (the set is exact only if nothing but "this AS has no
+    # routes in this family" and single unparsable items is tolerated): C03/R3's decision on sink_error, recorded here
+    from . import c03
+    c03.r3_sink(_Rename(chk, "C03/R3", "C11/R6:sink"), fx)
